@@ -6,6 +6,7 @@ import Proofs.Lemmas.AutogradGrad
 import Proofs.Lemmas.AutogradBatch
 import Proofs.Lemmas.AutogradExamples
 import Proofs.Lemmas.AutogradRoot
+import Proofs.Lemmas.AutogradDenoms
 import Proofs.Lemmas.AutogradSim3Trunc
 import Proofs.Lemmas.AutogradLocalSO3a
 import Proofs.Lemmas.AutogradLocalSO3b
@@ -989,5 +990,69 @@ example : itemIndex [2, 3] [3] 4 = 1 ∧ itemIndex [2, 3] [2, 1] 4 = 1 ∧ itemI
 `bcontribs` is DEFINED as the per-item sweeps addressed to the leaf items, so "batched = sum of items" is true by construction of the
 model.  That `broadcast_inputs` + `expand` + autograd's reduction in the real code behave like this definition rests on the `batch`
 stream (`c04.bcall` against the code) only. -/
+
+/-! ## 9. Pass 10 — the selected branches never divide by zero; group-valued roots with all leaves moving
+
+The "no NaN / Inf" clause is decided by the harness (§5).  What the exact model CAN say about it: wherever the model's `if` takes its value
+from a closed form, every denominator of that closed form is non-zero, so the convention `x/0 = 0` of `ℝ` is never exercised on a selected
+branch and the model value is the honest real number.  `_partial`: not covered are the masked-out branch the code also evaluates
+(`idx * nan_to_num(…)`) and floating-point overflow / underflow. -/
+
+/-- **coefficients of `so3_Jl`, `so3_Jl_inv`, `calcQ`, `rxso3_Ws`, `so3_Exp` on their closed-form branches**: the model value is the closed
+form and all its denominators are non-zero (`so3_Jl_inv`: for `θ < 2π`; a `Log` returns `θ ≤ π`) -/
+theorem selected_branch_well_defined_partial (eps th sigma : ℝ) (h0 : 0 ≤ eps) :
+    (eps < th → so3JlCoef eps th = ((1 - Real.cos th) / (th * th), (th - Real.sin th) / (th * (th * th))) ∧ th * th ≠ 0 ∧ th * (th * th) ≠ 0) ∧
+    (eps < th → th < 2 * Real.pi →
+      so3JlInvCoef eps th = (1 - th * Real.cos (1/2 * th) / (2 * Real.sin (1/2 * th))) / (th * th) ∧ 2 * Real.sin (1/2 * th) ≠ 0 ∧ th * th ≠ 0) ∧
+    ((5:ℝ)/100 < th → th * th * th ≠ 0 ∧ 2 * (th * th * (th * th)) ≠ 0 ∧ 2 * (th * th * (th * th)) * th ≠ 0) ∧
+    (eps < |sigma| → sigma ≠ 0 ∧ sigma * sigma ≠ 0 ∧ sigma * sigma * sigma ≠ 0) ∧
+    (eps < th → th * th ≠ 0 ∧ th * th * th ≠ 0) ∧
+    (eps < |sigma| → eps < th → th * (th * th + sigma * sigma) ≠ 0 ∧ th * th + sigma * sigma ≠ 0) :=
+  ⟨so3JlCoef_closed_wellDefined eps th h0, so3JlInvCoef_closed_wellDefined eps th h0, calcQ_closed_wellDefined th,
+   (rxso3WsCoef_wellDefined eps th sigma h0).1, (rxso3WsCoef_wellDefined eps th sigma h0).2.1, (rxso3WsCoef_wellDefined eps th sigma h0).2.2⟩
+
+/-- **`SO3_Log`**: regime 1 (`‖v‖ > eps`, `|w| > eps`) divides by `w` and `‖v‖`, regime 2 by `‖v‖`, regime 3 (`‖v‖ ≤ eps`, unit quaternion,
+`eps < 1`) by `w` and `3w³` — non-zero on their own branch, and the model value is the corresponding closed form -/
+theorem SO3_Log_selected_branch_well_defined_partial (eps vn w : ℝ) (h0 : 0 ≤ eps) :
+    (eps < vn → eps < |w| → so3LogFactor eps vn w = 2 * Real.arctan (vn / w) / vn ∧ vn ≠ 0 ∧ w ≠ 0) ∧
+    (eps < vn → ¬ eps < |w| → vn ≠ 0) ∧
+    (¬ eps < vn → eps < 1 → 0 ≤ vn → vn * vn + w * w = 1 →
+      so3LogFactor eps vn w = 2 * (1 / w - vn * vn / (3 * (w * w * w))) ∧ w ≠ 0 ∧ 3 * (w * w * w) ≠ 0) :=
+  so3LogFactor_wellDefined eps vn w h0
+
+/-- non-vacuity: `θ = 1`, `σ = 1`, `eps = 1/2` satisfy every hypothesis of `selected_branch_well_defined_partial`; the quarter turn
+(`‖v‖ = w = √2/2`) is in regime 1 and the identity (`‖v‖ = 0`, `w = 1`) in regime 3 of `SO3_Log_selected_branch_well_defined_partial` -/
+example : (1/2:ℝ) < 1 ∧ (1:ℝ) < 2 * Real.pi ∧ (5:ℝ)/100 < 1 ∧ (1/2:ℝ) < |(1:ℝ)| ∧
+    ((1/2:ℝ) < qr ∧ (1/2:ℝ) < |qr| ∧ qr * qr + qr * qr = 1) ∧ (¬ (1/2:ℝ) < 0 ∧ (0:ℝ) * 0 + 1 * 1 = 1) := by
+  have hg := qr_gt
+  have hp := Real.two_le_pi
+  refine ⟨by norm_num, by linarith, by norm_num, by norm_num, ⟨by linarith, by rw [abs_of_pos qr_pos]; linarith, by have := qr_sq; linarith⟩,
+    by norm_num, by norm_num⟩
+
+/-- **group-valued roots with all leaves moving at once** (the chart version of `gradient_exact_regimes_partial`): for every well-typed
+program whose value is an element of `g'`, transcendental nodes in proved regimes, all leaves moving along arbitrary valid curves,
+`d/dt ⟨c, Log(p(env(t))·p(env(0))⁻¹)⟩|₀ = Σ_leaves ⟨contribution, τ_leaf⟩` for the reverse sweep started with the storage cotangent `(c, 0)`.
+`_partial` for the same reasons as `gradient_exact_regimes_partial`; for algebraic programs `Regimes` holds trivially (`regimes_algebraic`). -/
+theorem group_root_gradient_exact_all_leaves_partial (dJ : DJ ℝ) (hdJ : DJShape dJ) (eps : ℝ) (heps : 0 < eps) (lt : List Ty)
+    (env : ℝ → List (DVec ℝ)) (tan : List (DVec ℝ)) (hE : EnvOK lt (env 0) tan)
+    (hleaf : ∀ i t, lt[i]? = some t → CurveOK t (fun s => (env s).getD i []) (tan.getD i []))
+    (p : Prog) (hR : Regimes dJ eps (env 0) p) (g' : Grp) (hty : tyOf lt p = some (.G g')) (c : DVec ℝ) (hc : c.length = g'.adim) :
+    HasDerivAt (fun s => DVec.dot c (chartF g' eps (eval eps (env 0) p) (eval eps (env s) p)))
+      (pairSum tan (backprop dJ eps (env 0) p (pad0 c))) 0 :=
+  group_root_program_gradient_exact dJ hdJ eps heps lt env tan hE hleaf p hR g' hty c hc
+
+/-- **the `Jinvp` kernel contract is satisfiable for `RxSO3` as well** (pass 10; `Jinvp_contract_satisfiable` is the `SO3` case): the kernel
+`dJclosedR` — the analytic `SO3` kernel on the rotation block, zero on the constant scale block of `rxso3_Jl_inv` — meets `DJSpec` at every
+`(φ₀, σ₀)` on the closed-form branch (`θ₀ > eps`, `sin(θ₀/2) ≠ 0`) and every `p₀`.  Still no witness for `SE3` / `Sim3` (their `Jl_inv` depends
+on the translation through `calcQ` resp. is the truncated series): those rest on the driver's Richardson-checked stand-in. -/
+theorem Jinvp_contract_satisfiable_RxSO3 (eps : ℝ) (heps : 0 ≤ eps) (φ0 p0 : DVec ℝ) (hφl : φ0.length = 4) (hp : p0.length = 4)
+    (hth : eps < (v3 φ0).norm) (hs : Real.sin (1/2 * (v3 φ0).norm) ≠ 0) : DJSpec dJclosedR .RxSO3 eps φ0 p0 :=
+  djSpec_RxSO3_closed eps heps φ0 p0 hφl hp hth hs
+
+/-- non-vacuity: `(φ₀, σ₀) = (π/2, 0, 0; 0.3)`, `eps = 1/2` -/
+example : (1/2:ℝ) < (v3 ([Real.pi / 2, 0, 0, 0.3] : DVec ℝ)).norm ∧ Real.sin (1/2 * (v3 ([Real.pi / 2, 0, 0, 0.3] : DVec ℝ)).norm) ≠ 0 := by
+  have : v3 ([Real.pi / 2, 0, 0, 0.3] : DVec ℝ) = ⟨Real.pi / 2, 0, 0⟩ := by simp [v3]
+  rw [this, pihalf_norm]
+  exact ⟨by have := pihalf_gt; linarith, sin_quarter_ne⟩
 
 end PP.AD
